@@ -10,7 +10,7 @@
    elision requires must_balance; 294def6: posting marks; c386080: zero amount with a per-unit cost);
    their old witnesses survive as Examples of the repaired behaviour. *)
 From LedgerV Require Import Base.Prelude Base.Round Model.Amount Model.AmountText Model.Xact Model.Print
-  Proofs.AmountProofs Proofs.XactProofs Proofs.PrintProofs.
+  Proofs.AmountProofs Proofs.XactProofs Proofs.PrintProofs Model.Assert.
 From Coq Require Import Qabs.
 Local Open Scope Q_scope.
 
@@ -210,6 +210,88 @@ Example ex_bucket_cleared :
   | _ => False
   end.
 Proof. vm_compute. split; reflexivity. Qed.
+
+(* ---- a balance assignment `Acct  = A` is printed as amount + assertion `Acct  x' = A`, the computed amount x at
+   display precision.  When the account's running total t carries more decimals than the commodity displays (an
+   elided leg of a fractional per-unit cost), x' differs from x by a residue.  The reader decides the assertion with
+   the display-zero test at the commodity's precision (textual.cc:1781 `! diff.is_zero()`): the printed form is
+   accepted whenever the residue is below half a display unit - which print's rounding guarantees (printed_amount
+   within half a unit, Properties_C04).  The account total and the asserted amount are the same in both journals
+   (the other postings re-read exactly: print_reread_equiv) *)
+Theorem printed_assignment_rereads_accepted : forall ord cp hist p amt t k,
+  p_amt p = None ->
+  acct_total ord hist (p_acct p) (negb (is_virtual p)) VVoid = Ok (VAmt t) ->
+  acomm amt = Some k -> acomm t = Some k -> base_sym k = k -> akeep amt = false ->
+  is_realzero amt = false -> is_realzero t = false ->
+  (cp k < aprec t)%Z -> (0 <= cp k <= 230)%Z ->
+  let x := mkAmt (Qred (aq amt - aq t)) (addsub_prec amt t) false (Some k) in
+  is_zero cp x = false ->
+  resolve_assigned ord cp false hist [] (mkW p (Some amt)) = Ok (with_amt p (Some x)) /\
+  forall x', acomm x' = Some k ->
+    2 * Qabs (aq x - aq x') * inject_Z (10 ^ cp k) < 1 ->
+    resolve_assigned ord cp false hist [] (mkW (with_amt p (Some x')) (Some amt)) = Ok (with_amt p (Some x')).
+Proof. exact PrintProofs.printed_assignment_rereads_accepted. Qed.
+Print Assumptions printed_assignment_rereads_accepted.
+
+(* the seeded journal: Assets:Cash holds $20.00 and the elided leg $-3.999 of `3 AAPL @ $1.333`; `= $10.00`
+   computes $-6.001, print writes `$-6.00 = $10.00`, and that assertion (off by $0.001) is accepted *)
+Definition pa_hist : list apost :=
+  [mkA [67%Z] false (mkAmt 20 2 false usd); mkA [67%Z] false (mkAmt (-3999 # 1000) 3 false usd)].
+Definition pa_post : post := mkp [67%Z] PReal None.
+Definition pa_amt : amount := mkAmt 10 2 false usd.
+
+Example ex_printed_assignment :
+  match resolve_assigned false cp2 false pa_hist [] (mkW pa_post (Some pa_amt)) with
+  | Ok p' =>
+      match p_amt p' with
+      | Some x =>
+          Qred (aq x) = (-6001 # 1000) /\ Qred (aq (read_back_value cp2 x)) = (-6 # 1) /\
+          resolve_assigned false cp2 false pa_hist []
+            (mkW (with_amt pa_post (Some (read_back_value cp2 x))) (Some pa_amt))
+          = Ok (with_amt pa_post (Some (read_back_value cp2 x)))
+      | None => False
+      end
+  | Err _ => False
+  end.
+Proof. vm_compute. repeat split. Qed.
+
+(* finding F135: the hypothesis "the account total is the same in both journals" fails once an EARLIER assignment on
+   the account was printed rounded; two roundings can add up to more than half a display unit.  Witness:
+   `5 CCC @ $64.197 / A`, `A = $-437.46`, `46 CCC @ $56.179 / A`, `A = $-2957.08`: all accepted; printed with the
+   computed amounts at display precision ($-116.48 for -116.475, $64.61 for 64.614) the last line is
+   "Balance assertion off by $0.01" *)
+Definition f135_ccc : option comm := Some [67; 67; 67]%Z.
+Definition f135_buy (n : Z) (price : Q) : list wpost :=
+  let a := mkAmt (inject_Z n) 0 false f135_ccc in
+  [mkW (mkPost [66%Z] PReal (Some a) (Some (cost_per_unit cp2 (mkAmt price 3 true usd) a)) None false false false) None;
+   mkW (mkp [65%Z] PReal None) None].
+Definition f135_assign (target : Q) : list wpost :=
+  [mkW (mkp [65%Z] PReal None) (Some (mkAmt target 2 false usd)); mkW (mkp [69%Z] PReal None) None].
+Definition f135_journal : list (list wpost) :=
+  [f135_buy 5 (64197 # 1000); f135_assign (-43746 # 100); f135_buy 46 (56179 # 1000); f135_assign (-295708 # 100)].
+
+(* print: an assignment posting gets the amount ledger computed, as the reader sees its text *)
+Definition f135_cp : comm -> Z := fun c => if str_eqb c [36%Z] then 2%Z else 0%Z.
+Definition print_assignments (x : list wpost) (o : res outcome) : list wpost :=
+  match o with
+  | Ok (Accepted ps') =>
+      map (fun wp => match w_assigned (fst wp), p_amt (w_post (fst wp)) with
+                     | Some _, None =>
+                         mkW (with_amt (w_post (fst wp))
+                                       (match p_amt (snd wp) with Some a => Some (read_back_value f135_cp a) | None => None end))
+                             (w_assigned (fst wp))
+                     | _, _ => fst wp
+                     end) (combine x ps')
+  | _ => x
+  end.
+
+Theorem printed_assignments_accumulate_refuted :
+  let outs := run_journal_a false false [] [] f135_journal in
+  let printed := map (fun xo => print_assignments (fst xo) (snd xo)) (combine f135_journal outs) in
+  forallb (fun o => match o with Ok (Accepted _) => true | _ => false end) outs = true /\
+  nth 3 (run_journal_a false false [] [] printed) (Ok Ignored) = Err EAssertOff.
+Proof. vm_compute. split; reflexivity. Qed.
+Print Assumptions printed_assignments_accumulate_refuted.
 
 (* ---- states: the mark print writes brings the posting's state back.  The hypothesis is the
    invariant parse_post establishes (a posting is UNCLEARED only under an uncleared transaction: one
